@@ -1008,10 +1008,13 @@ def worker(job):
     stats = vlib.Stats()
     r = M.Runner(tree, "c07-%d" % wid)
     local_ips = M.local_ipv4()
-    for sc in fixed:
+    for n, sc in enumerate(fixed):
+        if n % 40 == 0 and M.flag_up(plan):
+            return stats
         v = run_case(r, sc, stats, local_ips)
         if v:
             stats.violations.append((v, sc))
+            M.raise_flag(plan)
             return stats
     stats.cls("systematic_cases", len(fixed))
 
